@@ -259,6 +259,27 @@ func (e *Env) encodeRules(l *facts.Level) {
 			c.Fail("encode-emission", cons, epos, fmt.Sprintf("format %q does not print 'name:value' with the separator the construction needs", em.format))
 			continue
 		}
+		// what %v prints for the value is decided by the type's method set: fmt prefers Format, then Error,
+		// then String - and only methods with a value receiver are seen, because the field is passed by value
+		if em.field != nil {
+			ms := types.NewMethodSet(em.field.Type())
+			hasString := false
+			bad := ""
+			for i := 0; i < ms.Len(); i++ {
+				fn, _ := ms.At(i).Obj().(*types.Func)
+				if fn == nil {
+					continue
+				}
+				switch fn.Name() {
+				case "String":
+					sig := fn.Type().(*types.Signature)
+					hasString = sig.Params().Len() == 0 && sig.Results().Len() == 1 && types.Identical(sig.Results().At(0).Type(), types.Typ[types.String])
+				case "Format", "Error":
+					bad = fn.Name()
+				}
+			}
+			c.Check(hasString && bad == "", "encode-emission", cons+" printer", epos, "%v of the field prints its String() (value receiver; no Format/Error method takes precedence)", fmt.Sprintf("%%v of field %s does not print its code: String() with a value receiver present=%v, method taking precedence: %q", em.field.Name(), hasString, bad))
+		}
 		if em.kind == "version" {
 			ok := em.name == "CVSS"
 			c.Check(ok, "encode-emission", cons, epos, "CVSS:<Ver>", "the prefix is not CVSS:<Ver>")
